@@ -1,4 +1,5 @@
 // ---- prelude/errors.rs: the crate's Error type (real definition) + external std error types ----
+//@include prelude/std_extra.rs
 #[verifier::external_type_specification]
 #[verifier::external_body]
 pub struct ExIoError(std::io::Error);
